@@ -235,8 +235,10 @@ CHECKS = {
              'clip_src_loc equal Python\'s own slice.indices / list indexing for ALL lengths, indices, start_at and '
              '\'end\' (z3, unbounded), idempotence of normalisation, refusal only for inverted slices; the FSTView window '
              'arithmetic (14 methods against a Python list-window model, name indexing included) and the thin FST entry '
-             'points (insert/append/extend/prepend/prextend, parameter swizzle) designate exactly the range the Python '
-             'list operation designates. The handlers\' '
+             'points (insert/append/extend/prepend/prextend, parameter swizzle) and the sliceable branch of _put_one '
+             '(single-element index incl. the docstring offset of _body) designate exactly the range the Python list '
+             'operation designates; all 55 slice handlers of _PUT_SLICE_HANDLERS / _GET_SLICE_HANDLERS normalise '
+             '(start, stop) through fixup_slice_indices(<len ...>, start, stop) before any use (structural). The handlers\' '
              'implementation of the container law is covered only by the bounded stand-in (labelled bounded in '
              'evidence).',
         note=TB + 'Undecided remainder: per-node-type slice/one handlers (bounded only). Known finding F-C03-1 '
